@@ -111,10 +111,13 @@ func propC09(c *Check) {
 		"number+1":                    lit(EQ("(1 + Block.Get()#0.BlockNumber)", pl+".BlockNumber")),
 		"no-blob-gas":                 patLE(pl+".BlobGasUsed", "0") + "|" + lit(EQ("0", pl+".BlobGasUsed")),
 		"beacon-root":                 lit("bytes.Equal(BeaconRoot.Get()#0, " + pl + ".BeaconRoot)"),
-		"system-txs":                  lit("(Keeper.VerifyDequeue(" + pl + ".ExtraData, " + pl + ".Transactions) == nil)"),
-		"locking-requests-ok":         lit("(LockingKeeper.ProcessLockingRequest(goattypes.DecodeRequests(" + pl + ".Requests)#2) == nil)"),
-		"bridge-requests-ok":          lit("(BitcoinKeeper.ProcessBridgeRequest(goattypes.DecodeRequests(" + pl + ".Requests)#0) == nil)"),
-		"relayer-requests-ok":         lit("(RelayerKeeper.ProcessRelayerRequest(goattypes.DecodeRequests(" + pl + ".Requests)#1) == nil)"),
+		// the recorded head hash is later byte-compared with the next payload's 32-byte parent hash, while the
+		// engine only ever sees common.BytesToHash(hash) (which crops): an over- or under-long hash must not be recorded
+		"block-hash-32-bytes": lit(EQ("32", "len("+pl+".BlockHash)")),
+		"system-txs":          lit("(Keeper.VerifyDequeue(" + pl + ".ExtraData, " + pl + ".Transactions) == nil)"),
+		"locking-requests-ok": lit("(LockingKeeper.ProcessLockingRequest(goattypes.DecodeRequests(" + pl + ".Requests)#2) == nil)"),
+		"bridge-requests-ok":  lit("(BitcoinKeeper.ProcessBridgeRequest(goattypes.DecodeRequests(" + pl + ".Requests)#0) == nil)"),
+		"relayer-requests-ok": lit("(RelayerKeeper.ProcessRelayerRequest(goattypes.DecodeRequests(" + pl + ".Requests)#1) == nil)"),
 	} {
 		c.RequireFact(N, "R2", "head-write-after "+name, pat, tgt, "head write")
 	}
